@@ -81,6 +81,8 @@ func TestC06_Controlled(t *testing.T) {
 		}
 		if !setup.ViaRefresh {
 			setup.Restart = rapid.IntRange(0, 2).Draw(t, "restart") == 0
+			setup.FromNone = rapid.IntRange(0, 2).Draw(t, "fromNone") == 0
+			setup.RefsOrder = rapid.IntRange(0, 2).Draw(t, "refsOrder")
 		}
 		switch rapid.IntRange(0, 2).Draw(t, "occ") {
 		case 0:
@@ -93,7 +95,7 @@ func TestC06_Controlled(t *testing.T) {
 		n := rapid.IntRange(1, 40).Draw(t, "nactions")
 		var actions []vk.AsyncAction
 		for i := 0; i < n; i++ {
-			actions = append(actions, vk.AsyncAction{K: rapid.SampledFrom([]string{"ev", "raw", "step", "ev", "raw", "step", "ev", "dis", "raw0", "evl", "rawL"}).Draw(t, "a")})
+			actions = append(actions, vk.AsyncAction{K: rapid.SampledFrom([]string{"ev", "raw", "step", "ev", "raw", "step", "ev", "dis", "raw0", "evl", "rawL", "evP", "ev0", "evP"}).Draw(t, "a")})
 		}
 		vk.Sample(map[string]any{"setup": setup.String(), "actions": actionString(actions)})
 		check(t, setup, actions)
